@@ -227,6 +227,8 @@ func c08Check(c C08Case, rec *Recorder) *Disc {
 		suite = append(suite, Suite(*cur)...)
 	}
 	suite = append(suite, Suite(rep)...)
+	// the rejected configuration's own spellings, asked of the current state
+	suite = append(suite, CrossSuite(cur, c.Invalid)...)
 	wrap := oneWrap(m.Wrap) // one wrapped handler across the rejected call
 	before := SuiteSig(wrap, suite)
 	cfgBefore := cfgJSON(m.Config())
@@ -270,7 +272,7 @@ func c08Check(c C08Case, rec *Recorder) *Disc {
 func TestC08(t *testing.T) {
 	Prop[C08Case]{ID: "C08", Gen: c08Gen, Check: c08Check,
 		Rule: "generator: prior state in {passthrough, any valid configuration x debug on/off} x (35%) 1-3 earlier Reconfigure calls on the same middleware, each with a valid or a one-violation configuration x invalid configuration: either from the labelled-atom generator (exactly one planted violation, or many simultaneous violations; the other fields valid and unrelated to the prior state) or DERIVED from the middleware's own Config() by one of 22 edits (17 single edits; 5 compound ones that first GROW the origin list with valid neighbours of the current patterns - same host with another/any port, a subdomain - and then add one violation elsewhere) (get-modify-set: switch on a PNA mode or credentials, add */insecure/public-suffix/malformed origin, bad method/header, bounds, drop a tolerate switch), judged invalid by a fresh NewMiddleware. " +
-			"Oracle: Reconfigure returns non-nil; responses on Suite(prior) u Suite(repaired(invalid)), the Config() value and passthrough-ness are the same before and after. " +
+			"Oracle: Reconfigure returns non-nil; responses on Suite(prior) u Suite(repaired(invalid)) u preflights from an origin the prior state allows that use the rejected configuration's own method spellings and header names, the Config() value and passthrough-ness are the same before and after. " +
 			"non-trivial = the 'repaired' variant of the invalid configuration (violations removed, valid fields kept) answers the suite differently from the prior state, i.e. a partial application would be visible; distinct by (prior, debug, invalid).",
 		Assumptions: []string{"debug mode is observed through the failing-preflight requests of the suite"}}.Run(t)
 }
